@@ -33,12 +33,12 @@ Theorem C16_div : forall a b, app2 "div" a b = iso_div a b.
 Proof. exact div_ok. Qed.
 Print Assumptions C16_div.
 
-(* X // Y.  The table floors where ISO truncates (Findings.v: C16_intdiv_refuted).  The
-   guard below -- zero divisor, exact division, or operands of the same sign -- excludes
-   exactly the defect class: Findings.v C16_intdiv_guard_exact shows the operator is wrong
-   everywhere outside it, and by exactly one.  Full statement (holds once the operator
-   truncates, e.g. with fixes/C16-intdiv.patch; same proof script):
-     forall a b, app2 "//" a b = iso_intdiv a b. *)
+(* X // Y truncates toward zero, for all integers (zero divisor: evaluation error on both
+   sides).  Before fix 0b983d1 the table floored (-7 // 2 = -4) and only the guarded statement
+   below held; it is kept because its guard names the former defect class. *)
+Theorem C16_intdiv : forall a b, app2 "//" a b = iso_intdiv a b.
+Proof. exact intdiv_ok. Qed.
+Print Assumptions C16_intdiv.
 Theorem C16_intdiv_guarded : forall a b, intdiv_guard a b = true -> app2 "//" a b = iso_intdiv a b.
 Proof. exact intdiv_ok_guarded. Qed.
 Print Assumptions C16_intdiv_guarded.
@@ -102,6 +102,12 @@ Theorem C16_zero_divisor :
          /\ is_m (EApp2 "div" (ENum (VInt a)) (ENum (VInt 0))) = OArithErr.
 Proof. exact zero_divisor_is_problog_error. Qed.
 Print Assumptions C16_zero_divisor.
+Theorem C16_ill_typed_operand : forall q b,
+  is_m (EApp2 "/\" (ENum (VFlt q)) (ENum (VInt b))) = OArithErr
+  /\ is_m (EApp2 "<<" (ENum (VInt b)) (ENum (VFlt q))) = OArithErr
+  /\ is_m (EApp1 "\" (ENum (VFlt q))) = OArithErr.
+Proof. exact int_only_operator_on_float_is_problog_error. Qed.
+Print Assumptions C16_ill_typed_operand.
 Theorem C16_unbound_is_problog_error : forall e, ModelEval.ground e = false -> is_m e = OCallMode.
 Proof. exact nonground_is_callmode. Qed.
 Print Assumptions C16_unbound_is_problog_error.
@@ -225,7 +231,7 @@ Proof. vm_compute. auto. Qed.
 Example C16_ex_guard_false : intdiv_guard (-7) 2 = false /\ intdiv_guard 7 (-2) = false.
 Proof. vm_compute. auto. Qed.
 Example C16_ex_values :
-  app2 "mod" (-7) 2 = IVal 1 /\ app2 "mod" 7 (-2) = IVal (-1) /\ app2 "div" (-7) 2 = IVal (-4)
+  app2 "//" (-7) 2 = IVal (-3) /\ app2 "//" 7 (-2) = IVal (-3) /\ app2 "mod" (-7) 2 = IVal 1 /\ app2 "mod" 7 (-2) = IVal (-1) /\ app2 "div" (-7) 2 = IVal (-4)
   /\ app2 ">>" (-8) 1 = IVal (-4) /\ app1 "\" 5 = IVal (-6) /\ app2 "^" (-2) 3 = IVal (-8)
   /\ is_m (EApp2 "+" (ENum (VInt 1)) (EApp2 "*" (ENum (VInt 2)) (ENum (VInt 3)))) = OVal (VInt 7)
   /\ is_m (EApp2 "+" (ENum (VInt 1)) EVar) = OCallMode
